@@ -21,6 +21,9 @@ inductive Op where
   | readToEnd
   | readExact (n : Nat)
   | writeAll (buf : B)
+  -- vectored I/O (overridden by both cursors): any number of buffers, empty ones included
+  | writeV (bufs : List B)
+  | readV (ns : List Nat)
   deriving Repr, DecidableEq
 
 inductive Out where
@@ -105,6 +108,22 @@ def ACur.read (a : ACur) (n : Nat) : ACur × Out :=
     let k := min n (a.len - a.pos)
     ({ a with pos := a.pos + k }, .bytes ((List.range k).map fun i => a.get (a.pos + i)))
 
+/-- the loop of `write_vectored`: one `write` per buffer, the counts added up; the first failure ends it -/
+def ACur.writeMany (al : Nat) : ACur → List B → Nat → ACur × Out
+  | a, [], acc => (a, .wrote acc)
+  | a, b :: bs, acc =>
+      match a.write al b with
+      | (a', .wrote n) => ACur.writeMany al a' bs (acc + n)
+      | r => r
+
+/-- the loop of `read_vectored`: the buffers (of these lengths) are filled in order; a short read ends it -/
+def ACur.readMany : ACur → List Nat → B → ACur × Out
+  | a, [], acc => (a, .bytes acc)
+  | a, n :: ns, acc =>
+      match a.read n with
+      | (a', .bytes b) => if b.length < n then (a', .bytes (acc ++ b)) else ACur.readMany a' ns (acc ++ b)
+      | r => r
+
 /-- one operation of `AlignedCursor<A>` where `A` has `al` bytes -/
 def ACur.step (al : Nat) (a : ACur) : Op → ACur × Out
   | .write buf => a.write al buf
@@ -130,6 +149,13 @@ def ACur.step (al : Nat) (a : ACur) : Op → ACur × Out
       match a.write al buf with
       | (a', .wrote _) => (a', .unit)
       | r => r
+  -- `write_vectored` (overridden): an empty `write` first (the gap is filled even with no buffer), then every buffer
+  | .writeV bufs =>
+      match a.write al [] with
+      | (a', .wrote n) => ACur.writeMany al a' bufs n
+      | r => r
+  -- `read_vectored` (overridden)
+  | .readV ns => a.readMany ns []
 
 /-! ### The standard cursor over a byte vector -/
 
@@ -149,6 +175,23 @@ def SCur.read (s : SCur) (n : Nat) : SCur × Out :=
   let rem := s.buf.drop (min s.pos s.buf.length)
   let k := min n rem.length
   ({ s with pos := s.pos + k }, .bytes (rem.take k))
+
+/-- `vec_write_vectored`: the vector is padded up to the position once, then every buffer is copied behind the
+    previous one — the same as one `write` per buffer after an empty `write` -/
+def SCur.writeMany : SCur → List B → Nat → SCur × Out
+  | s, [], acc => (s, .wrote acc)
+  | s, b :: bs, acc =>
+      match s.write b with
+      | (s', .wrote n) => SCur.writeMany s' bs (acc + n)
+      | r => r
+
+/-- `Cursor::read_vectored`: `read` into each buffer in turn, stopping after a short one -/
+def SCur.readMany : SCur → List Nat → B → SCur × Out
+  | s, [], acc => (s, .bytes acc)
+  | s, n :: ns, acc =>
+      match s.read n with
+      | (s', .bytes b) => if b.length < n then (s', .bytes (acc ++ b)) else SCur.readMany s' ns (acc ++ b)
+      | r => r
 
 def SCur.step (s : SCur) : Op → SCur × Out
   | .write b => s.write b
@@ -171,6 +214,8 @@ def SCur.step (s : SCur) : Op → SCur × Out
       if n ≤ s.buf.length - s.pos then s.read n else ({ s with pos := s.buf.length }, .eof)
   -- `write_all` (`vec_write_all`): the same padding and copy as `write`
   | .writeAll b => ((s.write b).1, .unit)
+  | .writeV bufs => SCur.writeMany (s.write []).1 bufs 0
+  | .readV ns => s.readMany ns []
 
 /-- run a history, collecting the outputs -/
 def ACur.run (al : Nat) (a : ACur) : List Op → ACur × List Out
